@@ -61,6 +61,25 @@ def _is_rederive_compare(run_, r, g):
     a, b = sides
     return (derived(a) and embedded(b)) or (derived(b) and embedded(a))
 
+def _strip_turbofish(name):
+    """`a::b::<X, Y<Z>>` -> `a::b` (trailing generic arguments of a path, bracket-aware)."""
+    while name.endswith(">"):
+        depth = 0
+        for i in range(len(name) - 1, -1, -1):
+            if name[i] == ">":
+                depth += 1
+            elif name[i] == "<":
+                depth -= 1
+                if depth == 0:
+                    break
+        else:
+            return name
+        if i >= 2 and name[i - 2:i] == "::":
+            name = name[:i - 2]
+        else:
+            return name
+    return name
+
 def _shape(t):
     """Structure of a rejection condition with the concrete key type abstracted away: method names, operators and constants."""
     if not isinstance(t, tuple) or not t:
@@ -70,8 +89,10 @@ def _shape(t):
     if t[0] == "ok":
         return _shape(t[1])
     if t[0] == "call":
-        last = re.sub(r"<.*>", "", t[1].rsplit("::", 1)[-1])
+        last = re.sub(r"<.*>", "", _strip_turbofish(t[1]).rsplit("::", 1)[-1])
         args = tuple(_shape(a) for a in t[2])
+        if last in ("or_else", "and_then", "map_err", "map", "ok_or", "ok_or_else") and args and ("Result::" in t[1] or "Option::" in t[1]):
+            return args[0]          # Result/Option plumbing around a parse: the parse
         if last.startswith(("from_", "try_from", "parse")) and ("IN" in repr(args) or "PARSED" in repr(args)):
             return "PARSED"
         return ("call", last, args)
